@@ -77,6 +77,10 @@ def get_flask_blueprint(converter: Converter, **kwargs: Any) -> flask.Blueprint:
     @blueprint.route(f"/<prefix>{converter.delimiter}<path:identifier>")
     def resolve(prefix: str, identifier: str) -> Response:
         """Resolve a CURIE."""
+        # the route matches the prefix greedily, so split again at the first delimiter
+        prefix, _, identifier = f"{prefix}{converter.delimiter}{identifier}".partition(
+            converter.delimiter
+        )
         location = converter.expand_pair(prefix, identifier)
         if location is None:
             prefixes = "".join(f"\n- {p}" for p in sorted(converter.get_prefixes()))
@@ -210,7 +214,7 @@ def get_fastapi_router(converter: Converter, **kwargs: Any) -> fastapi.APIRouter
 
     api_router = APIRouter(**kwargs)
 
-    @api_router.get(f"/{{prefix}}{converter.delimiter}{{identifier}}")
+    @api_router.get(f"/{{prefix}}{converter.delimiter}{{identifier:path}}")
     def resolve(
         prefix: str = Path(
             title="Prefix",
@@ -223,6 +227,10 @@ def get_fastapi_router(converter: Converter, **kwargs: Any) -> fastapi.APIRouter
         ),
     ) -> RedirectResponse:
         """Resolve a CURIE."""
+        # the route matches the prefix greedily, so split again at the first delimiter
+        prefix, _, identifier = f"{prefix}{converter.delimiter}{identifier}".partition(
+            converter.delimiter
+        )
         location = converter.expand_pair(prefix, identifier)
         if location is None:
             prefixes = ", ".join(sorted(converter.get_prefixes()))
